@@ -263,30 +263,46 @@ class Wiring:
             if env and expr.id in env:
                 return env[expr.id]
             if init is not None:
-                out = []
-                for n in ast.walk(init):
-                    if isinstance(n, ast.Assign) and any(isinstance(t, ast.Name) and t.id == expr.id for t in n.targets):
-                        out.extend(self.eval(n.value, owner, init, _depth, env))
-                    elif isinstance(n, ast.Assign) and len(n.targets) == 1 and isinstance(n.targets[0], (ast.Tuple, ast.List)):
-                        # (a, b, c) = (x, y, z)   or   (a, b, c) = (x, y, z) if cond else (u, v, w)   : both arms
-                        names = [t.id if isinstance(t, ast.Name) else None for t in n.targets[0].elts]
-                        if expr.id in names:
-                            i = names.index(expr.id)
-                            arms = [n.value.body, n.value.orelse] if isinstance(n.value, ast.IfExp) else [n.value]
-                            for arm in arms:
-                                if isinstance(arm, (ast.Tuple, ast.List)) and len(arm.elts) == len(names):
-                                    out.extend(self.eval(arm.elts[i], owner, init, _depth, env))
-                                else:
-                                    raise AnalysisError('wiring: unpacking of %s not understood (%s:%d)' % (ast.unparse(arm)[:40], mod.rel, n.lineno))
-                    elif isinstance(n, ast.Call) and isinstance(n.func, ast.Attribute) and n.func.attr in ('extend', 'append') \
-                            and isinstance(n.func.value, ast.Name) and n.func.value.id == expr.id and len(n.args) == 1:
-                        out.extend(self.eval(n.args[0], owner, init, _depth, env))
+                # flow-insensitive union of everything assigned to the local.  A local defined through itself
+                # (`a, b = b, a`, `x = x + [..]`) contributes nothing new on re-entry: least fixpoint of the union.
+                busy = self.__dict__.setdefault('_busy', set())
+                key = (id(init), expr.id)
+                if key in busy:
+                    return []
+                busy.add(key)
+                try:
+                    out = self._local_values(expr, owner, init, _depth, env)
+                finally:
+                    busy.discard(key)
                 if out:
                     return out
         if isinstance(expr, ast.Constant):
             return [Val(expr.value, None, repr(expr.value), mod.path, expr.lineno)]
         raise AnalysisError('wiring: expression %s not understood (%s:%d)'
                             % (ast.unparse(expr)[:60], mod.rel, getattr(expr, 'lineno', 0)))
+
+    def _local_values(self, expr, owner, init, _depth, env):
+        """every value some statement of `init` gives to the local `expr.id` (union over all assignments)"""
+        mod = owner.mod
+        out = []
+        for n in ast.walk(init):
+            if isinstance(n, ast.Assign) and any(isinstance(t, ast.Name) and t.id == expr.id for t in n.targets):
+                out.extend(self.eval(n.value, owner, init, _depth, env))
+            elif isinstance(n, ast.Assign) and len(n.targets) == 1 and isinstance(n.targets[0], (ast.Tuple, ast.List)):
+                # (a, b, c) = (x, y, z)   or   (a, b, c) = (x, y, z) if cond else (u, v, w)   : both arms
+                names = [t.id if isinstance(t, ast.Name) else None for t in n.targets[0].elts]
+                if expr.id in names:
+                    i = names.index(expr.id)
+                    arms = [n.value.body, n.value.orelse] if isinstance(n.value, ast.IfExp) else [n.value]
+                    for arm in arms:
+                        if isinstance(arm, (ast.Tuple, ast.List)) and len(arm.elts) == len(names):
+                            out.extend(self.eval(arm.elts[i], owner, init, _depth, env))
+                        else:
+                            raise AnalysisError('wiring: unpacking of %s not understood (%s:%d)' % (ast.unparse(arm)[:40], mod.rel, n.lineno))
+            elif isinstance(n, ast.Call) and isinstance(n.func, ast.Attribute) and n.func.attr in ('extend', 'append') \
+                    and isinstance(n.func.value, ast.Name) and n.func.value.id == expr.id and len(n.args) == 1:
+                out.extend(self.eval(n.args[0], owner, init, _depth, env))
+        return out
 
     def table(self, cls, prop):
         """the single dict wired at config.<prop>"""
@@ -1466,8 +1482,33 @@ DAY_MONTH_ORDER = {'english': 'MD', 'chinese': 'MD', 'spanish': 'DM', 'french': 
                    'italian': 'DM', 'dutch': 'DM'}
 
 
-def ordered_date_regexes(idx, W, cls, flag):
-    """interpret the extractor configuration's __init__ with its format flag(s) set to `flag`: the date regex list in order"""
+def _stored_keys(st):
+    """environment keys (locals, 'obj.attr' slots) a statement may bind or mutate in place"""
+    keys = set()
+
+    def key_of(t):
+        if isinstance(t, ast.Name):
+            return t.id
+        if isinstance(t, ast.Attribute) and isinstance(t.value, ast.Name):
+            return '%s.%s' % (t.value.id, t.attr)
+        return None
+
+    for n in ast.walk(st):
+        if isinstance(n, (ast.Name, ast.Attribute)) and isinstance(n.ctx, (ast.Store, ast.Del)):
+            keys.add(key_of(n))
+        elif isinstance(n, ast.Subscript) and isinstance(n.ctx, (ast.Store, ast.Del)):
+            keys.add(key_of(n.value))
+        elif isinstance(n, ast.Call) and isinstance(n.func, ast.Attribute) and n.func.attr in (
+                'append', 'extend', 'insert', 'remove', 'pop', 'sort', 'reverse', 'clear', 'update', 'setdefault'):
+            keys.add(key_of(n.func.value))
+    keys.discard(None)
+    return keys
+
+
+def ordered_date_regexes(idx, W, cls, flag, info=None):
+    """interpret the extractor configuration's __init__ with its format flag(s) set to `flag`: the date regex list in order.
+    `info` (a dict, optional) receives 'line' (last statement that binds or grows the list) and 'declared' (the day/month/year
+    order constants of the resources the constructor consulted, e.g. {'FrenchDateTime.DefaultLanguageFallback': 'DMY'})"""
     from .c08 import MiniEval, Undetermined, _Return, _Raised
     k, init = idx.find_method(cls, '__init__')
     if init is None:
@@ -1480,6 +1521,8 @@ def ordered_date_regexes(idx, W, cls, flag):
                 vals = W.R.values(rc)
                 if node.attr in vals:
                     v = vals[node.attr]
+                    if info is not None and isinstance(v, str) and sorted(v) == ['D', 'M', 'Y']:
+                        info.setdefault('declared', {})['%s.%s' % (rc.name, node.attr)] = v
                     return _ResStr(v, rc.name, node.attr) if isinstance(v, str) else v
             if rc is not None and node.attr in class_consts_cached(idx, rc):
                 return class_consts_cached(idx, rc)[node.attr]
@@ -1499,12 +1542,18 @@ def ordered_date_regexes(idx, W, cls, flag):
         try:
             ev.block([st], env)
         except (Undetermined, _Raised):
+            # the statement could not be interpreted: whatever it may (re)bind or grow is unknown from here on, so a
+            # later read of it is undetermined too (a skipped `if flag: a, b = b, a` must not leave the old order behind)
+            for key in _stored_keys(st):
+                env.pop(key, None)
             continue
         except _Return:
             break
     for key in ('self._date_regex_list', 'self._date_regex'):
         lst = env.get(key)
         if isinstance(lst, list) and lst and all(isinstance(x, str) for x in lst):
+            if info is not None:
+                info['line'] = max((st.lineno for st in init.body if key in _stored_keys(st)), default=init.lineno)
             return lst
     raise AnalysisError('%s.__init__: the ordered date regex list cannot be interpreted' % cls.name)
 
@@ -1516,6 +1565,12 @@ def class_consts_cached(idx, cls):
     if cls.qual not in _CONSTS_CACHE:
         _CONSTS_CACHE[cls.qual] = class_consts(idx, cls.qual)
     return _CONSTS_CACHE[cls.qual]
+
+
+# day <= 12 and month <= 12, so both readings are valid dates and only the list order decides.  The blank-after-separator
+# spellings matter on their own: a culture may catch the compact spelling with an earlier regex of fixed order
+# (French DateExtractor3) and leave the spaced one to the pair of regexes whose precedence the DMY/MDY fallback selects.
+ORDER_LAYOUTS = ('5/6/2016', '5-6-2016', '5 / 6 / 2016', '5 - 6 - 2016', '5/ 6/ 2016')
 
 
 def first_reading(patterns, prefix, text):
@@ -1549,8 +1604,10 @@ def rule_order(chk, idx, W, dp_cfgs):
         if init is not None and any('dmy' in a.arg.lower() for a in init.args.args):
             cases.append((True, 'DM'))
         for flag, order in cases:
-            lst = ordered_date_regexes(idx, W, cls, flag)
-            for text in ('5/6/2016', '5-6-2016'):
+            info = {}
+            lst = ordered_date_regexes(idx, W, cls, flag, info)
+            decl = ', '.join('%s = %r' % kv for kv in sorted(info.get('declared', {}).items()))
+            for text in ORDER_LAYOUTS:
                 r = first_reading(lst, prefix, text)
                 cons = '%s[%s%s]' % (cls.name, text, ', day-first flag set' if flag else '')
                 if r is None:
@@ -1559,9 +1616,9 @@ def rule_order(chk, idx, W, dp_cfgs):
                 want = ('5', '6') if order == 'MD' else ('6', '5')
                 got = (str(r[1]).lstrip('0'), str(r[2]).lstrip('0'))
                 chk.judge(got == want, 'C06.order', cls.mod.path, cons, '%s: month %s day %s' % (r[0], r[1], r[2]),
-                          "%s: %r is read by %s (first in list order) as month %s, day %s; the %s order is %s, i.e. month %s, day %s"
+                          "%s: %r is read by %s (first in list order) as month %s, day %s; the %s order is %s, i.e. month %s, day %s%s"
                           % (cul, text, r[0], r[1], r[2], 'requested day-first' if flag else "culture's", 'day/month' if order == 'DM' else 'month/day',
-                             want[0], want[1]))
+                             want[0], want[1], ' (the constructor consults %s)' % decl if decl else ''), info.get('line'))
     md = _ResStr(r'(?<month>\d{1,2})/(?<day>\d{1,2})/(?<year>\d{4})', 'Control', 'MonthFirst')
     dm = _ResStr(r'(?<day>\d{1,2})/(?<month>\d{1,2})/(?<year>\d{4})', 'Control', 'DayFirst')
     r0, r1 = first_reading([md, dm], '', '5/6/2016'), first_reading([dm, md], '', '5/6/2016')
